@@ -126,6 +126,17 @@ def check_C01(tier, seed):
     F.execute_and_validate("C01", exe, d2, out, "c01-d2", TCFG)
     scs = random_scripts(rng, 300 if tier == "quick" else 6000, policies, ("T", "CT"))
     F.execute_and_validate("C01", exe, scs, out, "c01-rnd", TCFG)
+    # the stock debug configuration with its trace facet switched on (YOMM2_TRACE=1): tracing must not change anything
+    tr = []
+    for s in scs[:150 if tier == "quick" else 1500]:
+        t = S.Script(s.sid + ".trace", [["dbg"], ["stdd"], ["rem"]])
+        t.lines = s.lines
+        tr.append(t)
+    F.RUN_ENV["YOMM2_TRACE"] = "1"
+    try:
+        F.execute_and_validate("C01", exe, tr, out, "c01-trace", TCFG)
+    finally:
+        F.RUN_ENV.pop("YOMM2_TRACE", None)
     if scs:
         F.selftest_corruption(exe, scs[0], out, mutate_first("table", flip_table_row), "one outcome of a resolve table altered", TCFG)
         F.selftest_corruption(exe, scs[0], out, drop_first("def"), "one definition registration event dropped", TCFG)
@@ -169,6 +180,9 @@ def check_C02(tier, seed):
         F.execute_and_validate("C02", exe, rs, out, "c02-ret-" + cfg, TCFG)
     scs = random_scripts(rng, 200 if tier == "quick" else 4000, policies, ("CT", "T"))
     F.execute_and_validate("C02", exe, scs, out, "c02-rnd", TCFG)
+    # error records through the real front end: real classes, std rtti type ids, handler installed with set_error_handler
+    lat = F.gen_registries("GenLat_P4any.cfg", out, module="GenLat.tla")
+    real_class_programs("C02", lat, rng, out, 8 if tier == "quick" else 80, tier)
 
     def break_types(ev):
         for row in ev["rows"]:
@@ -345,6 +359,9 @@ def check_C17(tier, seed):
         F.execute_and_validate("C17", exe, scs, out, "c17-" + cfg, TCFG)
     scs = random_scripts(rng, 300 if tier == "quick" else 5000, policies, (), max_n=9, abstract_p=0.35)
     F.execute_and_validate("C17", exe, scs, out, "c17-rnd", TCFG)
+    # reports of real programs: really abstract classes (is_abstract from std::is_abstract_v)
+    lat = F.gen_registries("GenLat_P4any.cfg", out, module="GenLat.tla")
+    real_class_programs("C17", lat, rng, out, 8 if tier == "quick" else 80, tier)
 
     def flip_report(ev):
         if ev.get("res") == "ok":
@@ -548,14 +565,16 @@ def real_class_programs(pid, regs, rng, out, nprog, tier, per=8):
                 if (m, tuple(vp)) not in seen:
                     seen.add((m, tuple(vp)))
                     dd.append((m, d, vp))
-            scen.append((idx, classes, edges, statements, methods, dd))
+            abstract = [c for c in classes if rng.random() < 0.25]
+            scen.append((idx, classes, edges, statements, methods, dd, abstract))
         name = "real%d" % pi
         sources[name] = LE.program(name, scen)
     res = gen.build_and_run(sources, extra=(["-DNDEBUG"] if tier == "quick" else []))
-    F.validate_program_outputs(pid, res, sources, out, pid.lower() + "-real", "TraceYomm2_report.cfg" if pid == "C17" else "TraceYomm2_dispatch.cfg", "TraceYomm2.tla")
+    F.validate_program_outputs(pid, res, sources, out, pid.lower() + "-real", {"C17": "TraceYomm2_report.cfg", "C02": "TraceYomm2_errrec.cfg"}.get(pid, "TraceYomm2_plain.cfg"), "TraceYomm2.tla")
     if tier == "thorough":
         res2 = gen.build_and_run({k + "_dbg": v.replace('\\"script\\":\\"%s\\"' % k, '\\"script\\":\\"%s_dbg\\"' % k) for k, v in sources.items()})
-        F.validate_program_outputs(pid, res2, {k + "_dbg": v for k, v in sources.items()}, out, pid.lower() + "-real-dbg", "TraceYomm2_dispatch.cfg", "TraceYomm2.tla")
+        F.validate_program_outputs(pid, res2, {k + "_dbg": v for k, v in sources.items()}, out, pid.lower() + "-real-dbg",
+                                   {"C17": "TraceYomm2_report.cfg", "C02": "TraceYomm2_errrec.cfg"}.get(pid, "TraceYomm2_plain.cfg"), "TraceYomm2.tla")
     out.notes.append("%d generated programs with real class hierarchies (x %d scenarios each)" % (len(sources), per))
 
 
